@@ -292,3 +292,9 @@ ref_epoch = Contract(_C15.D + "__init__", PROPERTY, params=_src.params, cases=[d
 ref_epoch.callees = dict(_C15.CALLEES)
 ref_epoch.lib = dict(_C15.LIB)
 CONTRACTS += [ref_epoch]
+
+
+def EXTRA():
+    # orbit reconstruction and the unmarginalised likelihood only READ the samples and the data
+    from jvc import effects
+    return effects.check_no_inplace_on_borrowed([S + "get_orbit", S + "ln_unmarginalized_likelihood"], PROPERTY)
